@@ -394,7 +394,7 @@ point): from the two sends of `refresh_two_sends_any` / `refresh_two_sends_befor
 stale record to the wire (`WireAskWithout`).  The record is the link-level PTR processed at `t` (created `t`) with lifetime `ttl`
 seconds. -/
 theorem K3b_windows_of_sends (tr : Link.Trace) (b : Link.Br) (s : Link.Svc) (n : String) (outs : List Send) (tb t : Int) (ttl : Nat)
-    (hearly : tb + 120 + 14000 + 10000 ≤ t + 750 * ttl)
+    (hearly : tb + 120 + 14000 + 10000 + 999 ≤ t + 750 * ttl)
     (hsends : ∃ o1 ∈ outs, t + 750 * ttl - 10000 ≤ o1.t ∧ o1.t ≤ t + 750 * ttl + 2 * 10000 ∧ n ∈ o1.types ∧
       ∃ o2 ∈ outs, o1.t + 100 * ttl ≤ o2.t ∧ o2.t ≤ o1.t + 100 * ttl + 10000 ∧ n ∈ o2.types)
     (hwire : ∀ o ∈ outs, n ∈ o.types → t + 750 * ttl - 10000 ≤ o.t → WireAskWithout tr b s o) :
@@ -420,7 +420,7 @@ theorem K3b_windows_startup (tr : Link.Trace) (b : Link.Br) (s : Link.Svc) (type
     (hidle : IdleOps pre0) (hact : Active evs)
     (hex : Sched2.exec2 (browserCfg types minDelay none) {} tS (pre0 ++ (tb, .start d) :: evs) = .ok (s', outs))
     (hlast : tb + 120 + 14000 < lastTime tb evs)
-    (hlate : ¬ tb + 120 + 14000 + 10000 ≤ t + 750 * ttl)
+    (hlate : ¬ tb + 120 + 14000 + 10000 + 999 ≤ t + 750 * ttl)
     (hwire : ∀ o ∈ outs, n ∈ o.types → tb + 5000 ≤ o.t → WireAskWithout tr b s o) :
     Link.refreshOpp tr b.host b.ty s (Link.refreshWindow Link.Cfg.paper t ttl tb false).1
         (Link.refreshWindow Link.Cfg.paper t ttl tb false).2 = true
